@@ -146,6 +146,9 @@ def generalise(s, kind, fails, used=None):
     return s
 
 
+WIDE_LIMIT = 120
+
+
 def localise(t, fails, max_rounds=6, do_shrink=True):
     """-> list of (kind, signature, minimal spec).
 
@@ -154,6 +157,15 @@ def localise(t, fails, max_rounds=6, do_shrink=True):
     hide it), shrinks and generalises it, replaces it by a fresh variable and continues.
     """
     out = []
+    n_nodes = sum(1 for _ in paths(t))
+    if n_nodes > WIDE_LIMIT:
+        # a wide / deep tree: minimising it node by node costs a quadratic number of full checks;
+        # it is its own witness and is named by its shape
+        kind = fails(t)
+        if not kind:
+            return []
+        k = kind if isinstance(kind, str) else ":".join(str(x) for x in kind)
+        return [(kind, f"{k}|large {t[0]} tree with {n_nodes} nodes", t)]
     used = _names(t)
     cur = t
     for _ in range(max_rounds):
